@@ -8,12 +8,8 @@ Layer C theorems for the npm native range converter and the semver shorthand hel
     `N.N.N`) `fromNative (render e) = .ok (constraintsOf e)`: the documented node-semver
     desugaring, as constraint texts.  Corollaries `npm_caret_exact`, `npm_tilde_exact`,
     `npm_xrange_exact`, `npm_hyphen_exact`, `npm_comparators_exact`, `npm_set_exact`.
-(b) C16, declared errors.  `npm_declared`: every text is converted or raises one of
-    `ValueError`, `InvalidVersion`, `UnboundLocalError`, `AttributeError`.
-    `npm_declared_partial`: outside the decidable region `hazard` only the two declared ones.
-    `npm_declared_counterexample` (`>1.x`: `UnboundLocalError`),
-    `npm_declared_counterexample_unbound`, `npm_declared_counterexample_attribute`
-    (`a - b`: `AttributeError` from `semantic_version`).
+(b) C16, declared errors.  `npm_declared`: EVERY text is converted or raises `ValueError` or
+    `InvalidVersion` (`fromNative_err`); no internal error can escape.
 (c) C18.  `caret_bounds`, `tilde_bounds`, `pessimistic_bounds`: for every text `v` that
     `SemverVersion` accepts (value `r`) the helper applied to the operator followed by `v` gives
     `>= str r`, `< str (next r)`; `vercmp r (next r) = .lt`; `r` satisfies both constraints
@@ -1055,10 +1051,6 @@ def Decl (e : TErr) : Prop := e = .ValueError ∨ e = .InvalidVersion
 theorem Decl.declared {e : TErr} (h : Decl e) : e.declared = true := by
   rcases h with h | h <;> subst h <;> rfl
 
-/-- the exceptions `from_native` can let escape -/
-def Escapes (e : TErr) : Prop :=
-  e = .ValueError ∨ e = .InvalidVersion ∨ e = .UnboundLocalError ∨ e = .AttributeError
-
 theorem construct_not_other (s : List Char) (n : String) : construct s ≠ .error (.other n) := by
   unfold construct constructWith isValid
   cases h : buildValue false (Semver.normalize s) <;> simp [h]
@@ -1222,46 +1214,22 @@ theorem anyofCons_err : ∀ {sets : List (List Clause)} {e : TErr}, anyofCons se
         · rename_i h'; cases h; exact anyofCons_err h'
         · cases h
 
-/-- the region in which `get_npm_version_constraints_from_semver_npm_spec` lets an internal error
-escape: the spec parser raises `AttributeError`, or the spec is one `AllOf` with one member -/
-def specHazard (s : List Char) : Bool :=
-  match specParse s with
-  | .error .AttributeError => true
-  | .ok [cs] =>
-    match cs.eraseDups with
-    | [_] => true
-    | _ => false
-  | _ => false
-
-theorem specCons_err {s : List Char} {e : TErr} (h : specCons s = .error e) :
-    Decl e ∨ ((e = .UnboundLocalError ∨ e = .AttributeError) ∧ specHazard s = true) := by
+theorem specCons_err {s : List Char} {e : TErr} (h : specCons s = .error e) : Decl e := by
   unfold specCons at h
   cases hp : specParse s with
   | error e' =>
-    rw [hp] at h; cases h
+    rw [hp] at h
     rcases parseGroups_err hp with h1 | h1
-    · exact .inl (.inl h1)
-    · subst h1; right; refine ⟨.inr rfl, ?_⟩; unfold specHazard; rw [hp]
+    · subst h1; cases h; exact .inl rfl
+    · subst h1; cases h; exact .inl rfl
   | ok sets =>
     rw [hp] at h
     cases sets with
     | nil => simp [anyofCons] at h
     | cons cs rest =>
       cases rest with
-      | cons cs2 rest2 =>
-        exact .inl (anyofCons_err h)
-      | nil =>
-        simp only at h
-        cases hd : cs.eraseDups with
-        | nil => rw [hd] at h; simp [allofCons] at h
-        | cons x xs =>
-          cases xs with
-          | nil =>
-            rw [hd] at h; cases h
-            right; refine ⟨.inl rfl, ?_⟩; unfold specHazard; rw [hp]; simp only [hd]
-          | cons y ys =>
-            rw [hd] at h
-            exact .inl (.inr (allofCons_err h))
+      | cons cs2 rest2 => exact anyofCons_err h
+      | nil => exact .inr (allofCons_err h)
 
 theorem caretCons_err {t : List Char} {e : TErr} (h : caretCons t = .error e) : e = .InvalidVersion := by
   unfold caretCons at h
@@ -1272,166 +1240,82 @@ theorem caretCons_err {t : List Char} {e : TErr} (h : caretCons t = .error e) : 
     · rename_i h'; cases h; exact mkVer_err h'
     · cases h
 
-/-- a token that the loop may hand to `NpmSpec` -/
-def delegated (tok : List Char) : Bool := endsWith ['.', 'x'] tok || startsWith ['~'] tok
-
 theorem tokenCons_err {comp : Option Cmpr} {tok : List Char} {e : TErr}
-    (h : tokenCons comp tok = .error e) :
-    Decl e ∨
-    ((e = .UnboundLocalError ∨ e = .AttributeError) ∧ delegated tok = true ∧ specHazard tok = true) := by
+    (h : tokenCons comp tok = .error e) : Decl e := by
   unfold tokenCons at h
   split at h
   · split at h
-    · rename_i hx
-      rcases specCons_err h with h1 | ⟨h1, h2⟩
-      · exact .inl h1
-      · exact .inr ⟨h1, by simp [delegated, hx], h2⟩
+    · exact specCons_err h
     · split at h
-      · rename_i h'; cases h; exact .inl (.inr (mkVer_err h'))
+      · rename_i h'; cases h; exact .inr (mkVer_err h')
       · cases h
   · split at h
-    · exact .inl (.inr (caretCons_err h))
+    · exact .inr (caretCons_err h)
     · split at h
-      · rename_i hx
-        rcases specCons_err h with h1 | ⟨h1, h2⟩
-        · exact .inl h1
-        · exact .inr ⟨h1, by simpa [delegated] using hx, h2⟩
+      · exact specCons_err h
       · simp only at h
         split at h
-        · rename_i h'; cases h; exact .inl (.inr (mkVer_err h'))
+        · rename_i h'; cases h; exact .inr (mkVer_err h')
         · cases h
 
 theorem tokenLoop_err : ∀ {toks : List (List Char)} {comp : Option Cmpr} {e : TErr},
-    tokenLoop comp toks = .error e →
-    Decl e ∨ ((e = .UnboundLocalError ∨ e = .AttributeError) ∧
-      ∃ tok ∈ toks, delegated tok = true ∧ specHazard tok = true)
+    tokenLoop comp toks = .error e → Decl e
   | [], _, _, h => by cases h
   | tok :: rest, comp, e, h => by
     unfold tokenLoop at h
     split at h
-    · rcases tokenLoop_err h with h1 | ⟨h1, t, ht, h2⟩
-      · exact .inl h1
-      · exact .inr ⟨h1, t, by simp [ht], h2⟩
+    · exact tokenLoop_err h
     · split at h
-      · rename_i h'
-        cases h
-        rcases tokenCons_err h' with h1 | ⟨h1, h2⟩
-        · exact .inl h1
-        · exact .inr ⟨h1, tok, by simp, h2⟩
+      · rename_i h'; cases h; exact tokenCons_err h'
       · split at h
-        · rename_i h'
-          cases h
-          rcases tokenLoop_err h' with h1 | ⟨h1, t, ht, h2⟩
-          · exact .inl h1
-          · exact .inr ⟨h1, t, by simp [ht], h2⟩
+        · rename_i h'; cases h; exact tokenLoop_err h'
         · cases h
 
-/-- the decidable region of one alternative in which an internal error can escape -/
-def rangeHazard (range : List Char) : Bool :=
-  if containsStr [' ', '-', ' '] range then specHazard range
-  else (splitWs range).any (fun tok => delegated tok && specHazard tok)
-
-/-- the decidable region of texts in which an internal error can escape -/
-def hazard (t : List Char) : Bool := (splitStr ['|', '|'] t).any rangeHazard
-
-theorem rangeCons_err {r : List Char} {e : TErr} (h : rangeCons r = .error e) :
-    Decl e ∨ ((e = .UnboundLocalError ∨ e = .AttributeError) ∧ rangeHazard r = true) := by
+theorem rangeCons_err {r : List Char} {e : TErr} (h : rangeCons r = .error e) : Decl e := by
   unfold rangeCons at h
-  unfold rangeHazard
   split at h
-  · rename_i hc
-    rcases specCons_err h with h1 | ⟨h1, h2⟩
-    · exact .inl h1
-    · exact .inr ⟨h1, by simp [hc, h2]⟩
-  · rename_i hc
-    rcases tokenLoop_err h with h1 | ⟨h1, t, ht, h2, h3⟩
-    · exact .inl h1
-    · refine .inr ⟨h1, ?_⟩
-      simp only [hc, Bool.false_eq_true, if_false, List.any_eq_true, Bool.and_eq_true]
-      exact ⟨t, ht, h2, h3⟩
+  · exact specCons_err h
+  · exact tokenLoop_err h
 
-theorem rangesCons_err : ∀ {rs : List (List Char)} {e : TErr}, rangesCons rs = .error e →
-    Decl e ∨ ((e = .UnboundLocalError ∨ e = .AttributeError) ∧ rs.any rangeHazard = true)
+theorem rangesCons_err : ∀ {rs : List (List Char)} {e : TErr}, rangesCons rs = .error e → Decl e
   | [], _, h => by cases h
   | r :: rest, e, h => by
     unfold rangesCons at h
     split at h
-    · rename_i h'
-      cases h
-      rcases rangeCons_err h' with h1 | ⟨h1, h2⟩
-      · exact .inl h1
-      · exact .inr ⟨h1, by simp [h2]⟩
+    · rename_i h'; cases h; exact rangeCons_err h'
     · split at h
-      · rename_i h'
-        cases h
-        rcases rangesCons_err h' with h1 | ⟨h1, h2⟩
-        · exact .inl h1
-        · exact .inr ⟨h1, by simp [h2]⟩
+      · rename_i h'; cases h; exact rangesCons_err h'
       · cases h
 
-theorem fromNative_err {t : List Char} {e : TErr} (h : fromNative t = .error e) :
-    Decl e ∨ ((e = .UnboundLocalError ∨ e = .AttributeError) ∧ hazard t = true) := by
+/-- the only exceptions `from_native` raises are `ValueError` and `InvalidVersion` -/
+theorem fromNative_err {t : List Char} {e : TErr} (h : fromNative t = .error e) : Decl e := by
   unfold fromNative at h
   split at h
   · cases h
   · exact rangesCons_err h
 
-/-- C16 (npm), all texts: `from_native` returns, or raises one of FOUR exception classes: the two
-declared ones (`ValueError`, its subclass `InvalidVersion`) and two internal errors,
-`UnboundLocalError` and `AttributeError` (never `TypeError`, `IndexError`, `KeyError`,
-`AssertionError`, …) -/
+/-- C16 (npm): for EVERY text `from_native` returns a constraint list or raises a DECLARED
+exception, `ValueError` or its subclass `InvalidVersion`; no internal error (`TypeError`,
+`IndexError`, `KeyError`, `AttributeError`, `UnboundLocalError`, `AssertionError`, …) escapes -/
 theorem npm_declared (t : List Char) :
-    (∃ cs, fromNative t = .ok cs) ∨ ∃ e, fromNative t = .error e ∧ Escapes e := by
+    (∃ cs, fromNative t = .ok cs) ∨
+    ∃ e, fromNative t = .error e ∧ (e = .ValueError ∨ e = .InvalidVersion) := by
   cases h : fromNative t with
   | ok cs => exact .inl ⟨cs, rfl⟩
-  | error e =>
-    refine .inr ⟨e, rfl, ?_⟩
-    rcases fromNative_err h with (h1 | h1) | ⟨h1 | h1, _⟩
-    · exact .inl h1
-    · exact .inr (.inl h1)
-    · exact .inr (.inr (.inl h1))
-    · exact .inr (.inr (.inr h1))
+  | error e => exact .inr ⟨e, rfl, fromNative_err h⟩
 
-/-- C16 (npm) outside the decidable region `hazard`: the text is converted, or a DECLARED
-exception (`ValueError`, `InvalidVersion`) is raised -/
-theorem npm_declared_partial (t : List Char) (ht : hazard t = false) :
-    (∃ cs, fromNative t = .ok cs) ∨ ∃ e, fromNative t = .error e ∧ e.declared = true := by
-  cases h : fromNative t with
-  | ok cs => exact .inl ⟨cs, rfl⟩
-  | error e =>
-    refine .inr ⟨e, rfl, ?_⟩
-    rcases fromNative_err h with h1 | ⟨_, h2⟩
-    · exact h1.declared
-    · rw [ht] at h2; cases h2
+/-- in particular the error is in the declared set of the entry point -/
+theorem npm_declared' (t : List Char) (e : TErr) (h : fromNative t = .error e) :
+    e.declared = true := (fromNative_err h).declared
 
-/-- the hypothesis of `npm_declared_partial` is satisfiable, also by texts that go through
-`NpmSpec` -/
-example : hazard "^1.2.3 || ~1.2.3 1.2.x || 1.0.0 - 2.0.0 || >=1.2.3-a".toList = false := by decide
-
-/-- C16 defect 1: `get_npm_version_constraints_from_semver_npm_spec` returns a local that is
-only assigned when the simplified clause is an `AnyOf`/`AllOf`; a spec that simplifies to ONE
-`Range` (`>1.x` ↦ `>=2.0.0`) escapes as `UnboundLocalError` -/
-theorem npm_declared_counterexample :
-    fromNative ">1.x".toList = .error .UnboundLocalError ∧ hazard ">1.x".toList = true :=
-  ⟨rfl, by decide⟩
-
-/-- other witnesses of the same defect -/
-theorem npm_declared_counterexample_unbound :
-    fromNative "x.x".toList = .error .UnboundLocalError ∧
-    fromNative "<=1.x".toList = .error .UnboundLocalError ∧
-    fromNative "1.2.3+b.x".toList = .error .UnboundLocalError ∧
-    fromNative ">=1.0.0 <1.x".toList = .error .UnboundLocalError :=
-  ⟨rfl, rfl, rfl, rfl⟩
-
-/-- C16 defect 2: in a hyphen range `semantic_version.NpmSpec` calls `match.groups()` without
-checking that `NPM_SPEC_BLOCK` matched; an operand that is not a (partial) version escapes as
-`AttributeError` -/
-theorem npm_declared_counterexample_attribute :
-    fromNative "a - b".toList = .error .AttributeError ∧
-    fromNative "v1.0.0 - 2.0.0".toList = .error .AttributeError ∧
-    fromNative ">=1.0.0 - 2.0.0".toList = .error .AttributeError ∧
-    hazard "a - b".toList = true :=
-  ⟨rfl, rfl, rfl, by decide⟩
+/-- the former witnesses of escaping internal errors (repaired by /repo 0921960) -/
+theorem npm_former_witnesses :
+    fromNative ">1.x".toList = .ok [.mk .ge "2.0.0".toList] ∧
+    fromNative "x.x".toList = .ok [.mk .ge "0.0.0".toList] ∧
+    fromNative "<=1.x".toList = .ok [.mk .lt "2.0.0".toList] ∧
+    fromNative "a - b".toList = .error .ValueError ∧
+    fromNative "v1.0.0 - 2.0.0".toList = .error .ValueError :=
+  ⟨rfl, rfl, rfl, rfl, rfl⟩
 
 /-! ## (c) the shorthand helpers: C18 -/
 
